@@ -18,7 +18,9 @@ fn main() {
   let get = |k: &str, d: &str| opt.get(k).cloned().unwrap_or_else(|| d.to_string());
   match args[1].as_str() {
     "gen" => {
+      let fixed = opt.get("fixed").map(|f| { let v: Vec<usize> = f.split(',').map(|x| x.parse().unwrap()).collect(); (v[0], v[1], v[2]) });
       let cfg = GenCfg {
+        fixed,
         family: get("family", "WF"),
         max_t: get("max-t", "5").parse().unwrap(),
         max_r: get("max-r", "4").parse().unwrap(),
